@@ -7,12 +7,15 @@ pid = sys.argv[1]
 round3 = len(sys.argv) > 2 and sys.argv[2] == 'callers'
 round4 = len(sys.argv) > 2 and sys.argv[2] == 'stateful'
 round6 = len(sys.argv) > 2 and sys.argv[2] == 'recovery'
+round7 = len(sys.argv) > 2 and sys.argv[2] == 'sharing'
 wt = '/tmp/wt-%s' % pid
 for line in open('/verif/properties.jsonl'):
     p = json.loads(line)
     if p['id'] == pid:
         break
 extra = (" At least one of the two changes must be made in a module OTHER than the files the property is anchored in: a caller, helper or sibling module through which the property is also observable (for instance command line tools under edxml/cli, event collections, the transcoder classes and their test harnesses, the miner's parsers, logging or utility modules), so that code paths beyond the central one are covered." if round3 else "")
+if round7:
+    extra = (" At least one of the two changes must only manifest when two live objects share, copy or hand over state: one Ontology object given to two writers, validators, collections or mediators; an event that sits in two collections or is written twice; copy.copy / copy.deepcopy / pickle of ontologies, events, collections, templates or parsers; an object returned by a getter that the caller then mutates; class-level (shared between instances) versus instance-level attributes. The other change must depend on the ORDER in which definitions, properties, objects or events are supplied (dictionary / set iteration order, registration order, sorted versus insertion order) and keep the most common order correct.")
 if round6:
     extra = (" At least one of the two changes must only manifest after something went wrong or was refused earlier on the same objects: an operation that raised an EDXML error half way (an invalid event, an incompatible definition, a rejected record, malformed input) and left partial state behind, or an object (writer, parser, validator, ontology, event, collection, mediator, template) that keeps being used after it reported an error, so that later VALID operations misbehave. The other change must keep the most common usage correct and manifest only under a combination of two unusual circumstances (a non-default option or constructor argument, a particular order of API calls, a boundary value such as empty / maximum length / zero / non-BMP characters).")
 if round4:
